@@ -67,9 +67,11 @@ impl ForNextCounterMatch {
                             Err(LintError::NextWithoutFor.at(pos))
                         }
                     }
-                    _ => unimplemented!(),
+                    // NEXT A(1), NEXT A.B : not the counter of the FOR
+                    _ => Err(LintError::NextWithoutFor.at(pos)),
                 },
-                _ => unimplemented!(),
+                // already rejected by ensure_numeric_variable
+                _ => Err(LintError::NextWithoutFor.at(pos)),
             }
         } else {
             // does not have a NEXT variable
